@@ -127,6 +127,10 @@ class Escape:
                 out += [m] if m else []
             elif f.id in self.funcs:
                 out.append(f.id)
+            elif self.mod.has_assign(f.id):
+                # a module-level callable built from functions (functools.partial(REGEX.sub, callback)): its call runs them
+                v = self.mod.assign_value(f.id)
+                out += [x.id for x in ast.walk(v) if isinstance(x, ast.Name) and x.id in self.funcs]
             elif f.id == 'next' and c.args:
                 a = attr_chain(c.args[0]) or ''
                 if a.startswith('self.') and cls:
